@@ -7,6 +7,15 @@ def InSignedRange (w : Nat) (r : Int) : Prop := -(2 : Int) ^ (w - 1) ≤ r ∧ r
 theorem toInt_inRange {w : Nat} (x : BitVec w) : InSignedRange w x.toInt :=
   ⟨BitVec.le_toInt x, BitVec.toInt_lt⟩
 
+/-- a value in the signed range of a narrower type is in the signed range of a wider one -/
+theorem inSignedRange_mono {wi w : Nat} (h : wi ≤ w) {r : Int} (hr : InSignedRange wi r) :
+    InSignedRange w r := by
+  have hle : (2 : Int) ^ (wi - 1) ≤ 2 ^ (w - 1) := by
+    have : (2 : Nat) ^ (wi - 1) ≤ 2 ^ (w - 1) := Nat.pow_le_pow_right (by omega) (by omega)
+    exact_mod_cast this
+  obtain ⟨h1, h2⟩ := hr
+  exact ⟨by omega, by omega⟩
+
 /-- Python's `abs(l) // abs(r)` with the sign fix-up used by `run_divsi`/`run_remsi` is truncating
 division. -/
 theorem pydiv_eq_tdiv (l r : Int) (hr : r ≠ 0) :
